@@ -7,6 +7,7 @@ mod engine_c;
 mod props_d;
 mod props_e;
 mod props_f;
+mod props_g;
 mod pool;
 mod props_a;
 mod props_c08;
@@ -58,6 +59,10 @@ fn main() {
                 "C06" => props_a::c06(tier, seed),
                 "C07" => props_e::c07(tier, seed),
                 "C08" => props_c08::c08(tier, seed),
+                "C09" => props_f::c09(tier, seed),
+                "C10" => props_f::c10(tier, seed),
+                "C13" => props_f::c13(tier, seed),
+                "C14" => props_f::c14(tier, seed),
                 "C15" => props_a::c15(tier, seed),
                 "C17" => props_a::c17(tier, seed),
                 "C18" => props_a::c18(tier, seed),
@@ -82,6 +87,10 @@ fn main() {
                         "B" => engine_b::replay(&r.config, &r.case),
                         "C04" => props_d::replay_c04(&r.config),
                         "C07" => props_e::replay_c07(&r.config, &r.case),
+                        "C09a" | "C09b" => props_f::replay_c09(&r.engine, &r.case),
+                        "C10" => props_f::replay_generic(props_f::JOB_F_C10, &r.case),
+                        "C13" => props_f::replay_generic(props_f::JOB_F_C13, &r.case),
+                        "C14" => props_f::replay_generic(props_f::JOB_F_C14, &r.case),
                         "C03" => engine_c::replay_c03(&r.config, &r.case),
                         "C16" => engine_c::replay_c16(&r.config, &r.case),
                         "C18" => engine_c::replay_c18(&r.config, &r.case),
